@@ -125,7 +125,12 @@ def main(seed, ncases, driver, out):
         if faults and len(reqs) >= 2: distinct.add(json.dumps(case, sort_keys=True))
         if len(samples) < 2: samples.append(case)
         if impl != model:
-            failures.append({"case": c, "kind": "history-mismatch", "input": case, "impl": impl, "model": model})
+            # what the properties speak about: the values / errors handed to the caller and left-over in-flight markers.  The number and the
+            # order of evaluations are finer observables: a difference there alone breaks the correspondence, not a property.
+            obs = lambda t: t.split("#calls=")[0]
+            only = obs(impl) == obs(model)
+            failures.append({"case": c, "kind": "evaluation-log-differs" if only else "history-mismatch", "correspondence_only": only,
+                             "input": case, "impl": impl, "model": model})
     proc.stdin.close()
     json.dump({"evaluations": evals, "cases": ncases, "distinct_nontrivial": len(distinct), "failures": failures,
                "distribution": kinds, "samples": samples}, open(out, "w"))
